@@ -49,6 +49,8 @@ def make_arg(ptype, name):
         return Opt(dsl.fresh_bool(name + "#none"), dsl.fresh_float(name))
     if ptype == "optint":
         return Opt(dsl.fresh_bool(name + "#none"), dsl.fresh_int(name))
+    if ptype == "optstr":
+        return Opt(dsl.fresh_bool(name + "#none"), StrV(z3.Const(fresh_name(name), dsl.Str)))
     if ptype == "none":
         return NONEV
     if ptype == "str":
@@ -344,11 +346,20 @@ class LoopSpec(object):
                 out.append((s0, Outcome("raise", exc=it.exc)))
                 continue
             dateseq = type(it).__name__ == "DateSeqV"
-            if not isinstance(it, ListV) and not dateseq:
+            elem_fn = None
+            adapter = getattr(ex, "iter_adapter", None)
+            if not isinstance(it, ListV) and not dateseq and adapter is not None:
+                ad = adapter(it, s0)
+                if ad is not None:
+                    n_ad, elem_fn, it_owner_ad = ad
+            if not isinstance(it, ListV) and not dateseq and elem_fn is None:
                 raise Undecided("for-loop over %r in %s" % (it, fn))
             if not isinstance(node.target, ast.Name):
                 raise Undecided("for-loop target")
-            if dateseq:
+            if elem_fn is not None:
+                n = n_ad
+                it_owner = it_owner_ad
+            elif dateseq:
                 from .ext_algos import idxlen_c
 
                 n = Num(z3.If(idxlen_c - it.offset >= 0, idxlen_c - it.offset, 0), False, True)
@@ -376,7 +387,9 @@ class LoopSpec(object):
             hb = h.fork()
             if ex.feasible(hb, i.r < n.r):
                 hb.assume(i.r < n.r)
-                if dateseq:
+                if elem_fn is not None:
+                    c = elem_fn(hb, i)
+                elif dateseq:
                     c = ex.index_facts_pos(hb, i + it.offset)
                 else:
                     c = hb.heap.list_at(it.owner, it.field, i, self.elem_cls)
